@@ -40,7 +40,8 @@ class Link(object):
         self.s2c = bytearray()          # pending server->client bytes
         self.s2c_total = 0
         self.s2c_eof = False            # server finished sending / closed
-        self.client_shutdown = False
+        self.client_shutdown = False    # reads shut down locally (SHUT_RD*)
+        self.client_fin = False         # writes shut down: the peer saw FIN
         self.client_closed = False
         self.file_closed = False
         self.events = []                # (seq, kind, info)
@@ -49,6 +50,7 @@ class Link(object):
         self.eof_reads = 0              # read() calls that returned b''
         self.idle = 0                   # times select found nothing
         self.send_error = None          # exception instance to raise on send
+        self.before_send = None         # one-shot callable run inside send()
         self.in_script = False
         self.killed = False
         self.max_eof_reads = 10000
@@ -96,7 +98,7 @@ class Link(object):
         return bytes(self.c2s)
 
     def closed_by_client(self):
-        return self.client_closed or self.client_shutdown
+        return self.client_closed or self.client_shutdown or self.client_fin
 
 
 class FakeFile(object):
@@ -132,9 +134,10 @@ class FakeFile(object):
                         link.killed = True
                         raise KillThread()
                     return b''
-                if self.closed:
-                    raise ValueError('I/O operation on closed file.')
-                # a real socket would block here until data arrives
+                # a real socket blocks here until data or end-of-stream
+                # arrives or the read side is shut down; closing the file
+                # object or the socket from another thread does NOT wake a
+                # recv() that is already blocked
                 if deadline is None:
                     deadline = time.time() + link.world.block_guard
                 left = deadline - time.time()
@@ -194,6 +197,9 @@ class FakeSocket(object):
         if self.shut:
             raise BrokenPipeError(errno.EPIPE, 'Broken pipe')
         self.world.yield_point('send', link)
+        if link.before_send is not None:
+            hook, link.before_send = link.before_send, None
+            hook()          # one-shot: what the peer did just before this send
         if link.send_error is not None:
             raise link.send_error
         data = bytes(data)
@@ -222,12 +228,21 @@ class FakeSocket(object):
             raise OSError(errno.ENOTCONN, 'Transport endpoint is not '
                           'connected')
         self.world.yield_point('shutdown', self.link)
+        rd = how in (_real_socket.SHUT_RD, _real_socket.SHUT_RDWR)
+        wr = how in (_real_socket.SHUT_WR, _real_socket.SHUT_RDWR)
         with self.link.cond:
-            self.shut = True
-            self.link.client_shutdown = True
-            self.link.log('shutdown')
+            if wr:
+                self.shut = True
+            if rd:
+                # local reads (also ones blocked in another thread) return
+                # end-of-stream from now on
+                self.link.client_shutdown = True
+            self.link.log('shutdown', how)
             self.link.cond.notify_all()
-        self.world.run_script(self.link, b'', closed=True)
+        if wr and not self.link.client_fin:
+            # the peer sees our FIN
+            self.link.client_fin = True
+            self.world.run_script(self.link, b'', closed=True)
 
     def close(self):
         self.world.yield_point('close', self.link)
@@ -344,11 +359,13 @@ class World(object):
         world = self
 
         class M(object):
-            AF_INET, AF_INET6, SOCK_STREAM = AF_INET, AF_INET6, SOCK_STREAM
-            SHUT_RDWR = SHUT_RDWR
+            # every constant, exception class and helper of the real module
+            # is available (SHUT_WR, IPPROTO_TCP, TCP_NODELAY, inet_aton...);
+            # only what would touch the network is replaced
+            def __getattr__(self, name):
+                return getattr(_real_socket, name)
+
             error = OSError
-            timeout = _real_socket.timeout
-            gaierror = _real_socket.gaierror
 
             @staticmethod
             def getaddrinfo(host, port, family=0, type=0, proto=0, flags=0):
@@ -359,7 +376,16 @@ class World(object):
             @staticmethod
             def socket(family=AF_INET, type=SOCK_STREAM, proto=0):
                 return FakeSocket(world, family, type, proto)
-        return M
+
+            @staticmethod
+            def create_connection(address, timeout=None,
+                                  source_address=None, **kw):
+                so = FakeSocket(world, AF_INET, SOCK_STREAM, 6)
+                if timeout is not None:
+                    so.settimeout(timeout)
+                so.connect(address)
+                return so
+        return M()
 
     def select_module(self):
         world = self
